@@ -39,12 +39,14 @@ def replay(out, pending):
 
 
 def run(out):
-    out.functions = ["Reader::{new,bump,reset_buff,is_eof,current_range,tail_range}", "LuaGreenNodeBuilder::{token,start_node,finish_node,is_trivia,is_trivia_whitespace}"]
+    out.functions = ["Reader::{new,bump,reset_buff,is_eof,current_range,tail_range}", "LuaGreenNodeBuilder::{token,start_node,finish_node,is_trivia,is_trivia_whitespace}",
+                     "LuaParser::{init,bump,skip_trivia,parse_trivia_tokens,parse_comments,peek_next_token,peek_nth_token,previous_token_range,current_token_range}"]
     maxops = 4 if out.tier == "quick" else 6
     out.bounds = {"reader": "texts of every byte-width shape of <= %d characters, <= k+1 symbolic bump/reset operations" % (3 if out.tier == "quick" else 4),
+                  "bump": "every token vector of <= %d tokens, each symbolic over (five trivia kinds | any other kind), doc parsing off" % (3 if out.tier == "quick" else 5),
                   "builder": "every balanced operation sequence of <= %d operations inside the Chunk wrapper; all node / token kinds symbolic" % maxops}
     out.outside = ["the lexer's choice of lexeme boundaries and lexemes (whole-lexer symbolic runs do not terminate; see DESIGN.md)",
-                   "the grammar (which events it emits, recovery paths), doc-comment parsing", "rowan's storage of token texts (build_rowan_green is mirrored, not executed)",
+                   "the grammar (which node events it emits, recovery paths), doc-comment parsing (LuaDocParser; enable_emmylua_doc = true)", "rowan's storage of token texts (build_rowan_green is mirrored, not executed)",
                    "operation sequences longer than the bound"]
     out.assumptions = ["Vec / slice / iterator operations follow their std contracts (exact models in mirsmt/vecmodel.py)",
                        "finish() emits the first top-level child depth-first (read from the source; the walk is mirrored in the check)",
@@ -54,6 +56,7 @@ def run(out):
     pending = []
     try:
         pending = pk.builder_obligations(out, mc, True, maxops)
+        pending += pk.parser_obligations(out, mc, True, 3 if out.tier == "quick" else 5)
     except (symex.Unsupported, RuntimeError, KeyError, ValueError, IndexError, AttributeError, TypeError) as e:
         import traceback
         out.fatal = "engine M could not encode the current source: %r\n%s" % (e, traceback.format_exc()[-1500:])
